@@ -4,8 +4,11 @@ urlencoded  : HTML "application/x-www-form-urlencoded" serialiser with random
               (always valid) percent-encoding choices.
 multipart   : RFC 7578 / RFC 2046 multipart/form-data writer.  Parameters are
               written as token, quoted-string (RFC 2045/822: only `\\` and `"` are
-              escaped, with a backslash) or RFC 2231/5987 ext-value
-              (name*=utf-8'lang'pct-encoded).  The boundary is verified to occur
+              escaped, with a backslash), RFC 2231/5987 ext-value
+              (name*=utf-8'lang'pct-encoded), RFC 2231 section 3 parameter value
+              continuations (name*0="..."; name*1=tok) or RFC 2231 section 4.1
+              continuations carrying charset information (name*0*=utf-8''%41;
+              name*1="plain"; name*2*=%42).  The boundary is verified to occur
               nowhere in the body except in the delimiter lines the encoder wrote.
 """
 from __future__ import annotations
@@ -80,6 +83,64 @@ def ext_value(s: str, rng, lang="") -> str:
     return rng.choice(["utf-8", "UTF-8"]) + "'" + lang + "'" + "".join(out)
 
 
+def pct_attr(s: str, rng) -> str:
+    """RFC 2231 extended-other-values: attribute-char or %XX of the UTF-8 bytes."""
+    out = []
+    for b in s.encode("utf-8"):
+        if b in ATTR_CHAR and rng.random() < 0.8:
+            out.append(chr(b))
+        else:
+            hx = HEX_U if rng.random() < 0.8 else HEX_L
+            out.append("%" + hx[b >> 4] + hx[b & 15])
+    return "".join(out)
+
+
+def split_sections(value: str, rng):
+    """Cuts `value` into 1..13 consecutive sections at character boundaries (sections may be empty)."""
+    k = rng.choice([1, 2, 2, 2, 3, 3, 4, 5, 11, 13])
+    cuts = sorted(rng.randint(0, len(value)) for _ in range(k - 1))
+    edges = [0] + cuts + [len(value)]
+    return [value[a:b] for a, b in zip(edges, edges[1:])]
+
+
+def plain_section(sec: str, rng) -> str:
+    """A regular (not charset-extended) section value: token or quoted-string."""
+    if TOKEN_RE.match(sec) and rng.random() < 0.4:
+        return sec
+    assert quotable(sec)
+    return quoted_string(sec)
+
+
+def cont_params(name: str, value: str, form: str, rng) -> list:
+    """RFC 2231 parameter value continuations.  Returns one parameter string per section.
+
+    form 'cont'  (section 3): every section is a regular parameter `name*N=token|quoted-string`.
+    form 'contx' (section 4.1): section 0 is `name*0*=charset'lang'pct` and every later section is either
+                 extended (`name*N*=pct`) or, if it is printable ASCII, possibly regular (`name*N="..."`).
+    Section numbers are decimal without leading zeros, start at 0 and are contiguous.  RFC 2231 section 3:
+    the mechanism does not depend on parameter order, so the sections are sometimes written out of order."""
+    secs = split_sections(value, rng)
+    out = []
+    if form == "cont":
+        assert quotable(value)
+        for i, sec in enumerate(secs):
+            out.append(f"{name}*{i}={plain_section(sec, rng)}")
+    elif form == "contx":
+        lang = rng.choice(["", "", "en"])
+        for i, sec in enumerate(secs):
+            if i == 0:
+                out.append(f"{name}*0*={rng.choice(['utf-8', 'UTF-8'])}'{lang}'{pct_attr(sec, rng)}")
+            elif sec.isascii() and quotable(sec) and rng.random() < 0.5:
+                out.append(f"{name}*{i}={plain_section(sec, rng)}")
+            else:
+                out.append(f"{name}*{i}*={pct_attr(sec, rng)}")
+    else:
+        raise ValueError(form)
+    if len(out) > 1 and rng.random() < 0.25:
+        rng.shuffle(out)
+    return out
+
+
 def param(name: str, value: str, form: str, rng) -> str:
     """form: token | quoted | ext"""
     if form == "token":
@@ -95,9 +156,10 @@ def param(name: str, value: str, form: str, rng) -> str:
 
 def forms_for(value: str):
     """Parameter forms that can carry `value` losslessly."""
-    out = ["ext"]
+    out = ["ext", "contx"]
     if quotable(value):
         out.append("quoted")
+        out.append("cont")
     if TOKEN_RE.match(value):
         out.append("token")
     return out
@@ -121,16 +183,27 @@ class Part:
         self.header_block = b""   # header lines joined by CRLF, without the terminating CRLFCRLF
 
 
+def params_of(name: str, value: str, form: str, rng) -> list:
+    if form in ("cont", "contx"):
+        return cont_params(name, value, form, rng)
+    return [param(name, value, form, rng)]
+
+
 def build_part_headers(p: Part, rng, force_name_form=None, force_fn_form=None, pad_to=None) -> bytes:
     p.name_form = force_name_form or rng.choice(forms_for(p.name))
-    params = [param("name", p.name, p.name_form, rng)]
+    params = params_of("name", p.name, p.name_form, rng)
     if p.filename is not None:
         p.fn_form = force_fn_form or rng.choice(forms_for(p.filename))
-        fnp = param("filename", p.filename, p.fn_form, rng)
-        if rng.random() < 0.2:
-            params.insert(0, fnp)
+        fnp = params_of("filename", p.filename, p.fn_form, rng)
+        r = rng.random()
+        if r < 0.2:
+            params = fnp + params
+        elif r < 0.3 and len(params) + len(fnp) > 2:
+            # parameters are not order sensitive (RFC 2045 section 5.1): interleave the sections of both
+            params = params + fnp
+            rng.shuffle(params)
         else:
-            params.append(fnp)
+            params = params + fnp
     sep = rng.choice(["; ", "; ", ";", ";  "])
     cd = "form-data" + "".join(sep + x for x in params)
     lines = [case_variant("Content-Disposition", rng) + rng.choice([": ", ": ", ":"]) + cd]
